@@ -68,7 +68,8 @@ Theorem c08_F6_refuted :
     locks_of g = [("c.downstreams.mu", R)] /\ s = ([1], [0]).
 Proof.
   exists cfg_wire_ClientConn_readDownstreamMetadataLoop.
-  split; [vm_compute; tauto|]. split; [reflexivity|]. split; [vm_compute; reflexivity|].
+  split; [apply (find_cfg_In "wire.ClientConn.readDownstreamMetadataLoop"); vm_compute; reflexivity|].
+  split; [reflexivity|]. split; [vm_compute; reflexivity|].
   exists [1; 2; 4; 6; 1; 3], 3, (mkNode [] [] true), ([1], [0]).
   vm_compute. repeat split; reflexivity.
 Qed.
